@@ -911,7 +911,15 @@ func cellTypeField(t types.Type, f int) types.Type {
 func (fc *FC) defValue(c cellKey, cellType types.Type, d ssa.Instruction) *RF {
 	switch fc.defKind(d, c) {
 	case 1:
-		return fc.Val(d.(*ssa.Store).Val)
+		st := d.(*ssa.Store)
+		// the address of a local struct stored into a field (a literal holding &s):
+		// a reference to the struct's value at that point, as for call arguments
+		if al, ok := st.Val.(*ssa.Alloc); ok {
+			if _, isStruct := al.Type().Underlying().(*types.Pointer).Elem().Underlying().(*types.Struct); isStruct {
+				return fc.X.S.MakeFn("ref", fc.structAt(al, st))
+			}
+		}
+		return fc.Val(st.Val)
 	case 2:
 		st := d.(*ssa.Store)
 		return fc.X.fieldOf(fc.Val(st.Val), st.Val.Type(), c.field)
